@@ -271,3 +271,102 @@ CONTRACTS = [
         canary='k9_canary', l0=['A-sha', 'A-sorted'],
     ),
 ]
+
+
+# ================================================================================================
+# K8  chain.py : TaskParameterConfig.__init__   (C01, C02, C03, C09, C12)
+# ================================================================================================
+from pyvc.prims import seq_fold, same_map, empty_map
+
+ParamNameRec = Rec('ParamNameRec', {'name_in_config': Str})
+KeyCfgRec = Rec('KeyCfgRec', {'key': Str}, cls='taskchain.chain:TaskParameterConfig')
+InTaskRec = Rec('InTaskRec', {'_config': KeyCfgRec}, cls='taskchain.task:Task')
+
+
+def _cfg_contains(ex, ref, args):
+    import z3
+    from pyvc import pyops as P
+    from pyvc.kinds import Sym
+    return Sym(Bool, P.ufn('in_cfg', [z3.StringSort()], z3.BoolSort())(P.str_t(ex, args[0])))
+
+
+def _cfg_getitem(ex, ref, args):
+    import z3
+    from pyvc import pyops as P
+    from pyvc.kinds import Sym
+    return Sym(Dyn, P.ufn('cfg_val', [z3.StringSort()], Dyn.sort())(P.str_t(ex, args[0])))
+
+
+class _NativeOrigConfig:
+    def __init__(self, name, source, log, fields):
+        self._source = source
+        self._t = {}
+        self.base_dir = source(f'{name}.base_dir', Opt(PathK))
+        self.namespace = source(f'{name}.namespace', Opt(Str))
+        self.global_vars = source(f'{name}.global_vars', U('GV'))
+        self.context = source(f'{name}.context', U('Ctx'))
+        self.name = source(f'{name}.name', Str)
+
+    def _e(self, k):
+        if k not in self._t:
+            self._t[k] = (bool(self._source(f'in_cfg[{k}]', Bool)), self._source(f'cfg_val[{k}]', Dyn))
+        return self._t[k]
+
+    def __contains__(self, k):
+        return self._e(k)[0]
+
+    def __getitem__(self, k):
+        return self._e(k)[1]
+
+
+OrigConfigIface = Iface('OrigConfigIface',
+                        props={'base_dir': Prop(Opt(PathK)), 'namespace': Prop(Opt(Str)), 'global_vars': Prop(U('GV')), 'context': Prop(U('Ctx')),
+                               'name': Prop(Str)},
+                        methods={'__contains__': Meth(ret=_cfg_contains, event=False), '__getitem__': Meth(ret=_cfg_getitem, event=False)},
+                        native_factory=lambda name, source, log, fields: _NativeOrigConfig(name, source, log, fields))
+ParamValuesIface = Iface('ParamValuesIface', props={'all': Prop(Seq(ParamNameRec))},
+                         methods={'values': Meth(field='all')})
+OrigTaskIface = Iface('OrigTaskIface', props={'_cfg': Prop(Abs(OrigConfigIface, 'orig_config')), 'parameters': Prop(Abs(ParamValuesIface, 'orig_params')),
+                                              'fullname': Prop(Str)},
+                      methods={'get_config': Meth(field='_cfg'), '__str__': Meth(field='fullname')})
+
+
+def k8_key_of(self, task):
+    return self.key
+
+
+def k8_step(d, parameter, cfg):
+    d2 = dict(d)
+    if parameter.name_in_config in cfg:
+        d2[parameter.name_in_config] = cfg[parameter.name_in_config]
+    return d2
+
+
+def k8_inv(self, done, original_task):
+    cfg = original_task.get_config()
+    return same_map(self._data, seq_fold(lambda d, p: k8_step(d, p, cfg), empty_map('Str', 'Dyn'), done))
+
+
+def k8_post(self, original_task, input_tasks):
+    """exactly the entries of the declaring config for the parameters the task declares; the input keys by name;
+    namespace / base dir / context / global vars of the declaring config"""
+    cfg = original_task.get_config()
+    return same_map(self._data, seq_fold(lambda d, p: k8_step(d, p, cfg), empty_map('Str', 'Dyn'), original_task.parameters.values())) \
+        and self.input_tasks == {name: task._config.key for name, task in input_tasks.items()} \
+        and self.namespace == cfg.namespace and self.base_dir == cfg.base_dir and self.context == cfg.context \
+        and self.global_vars == cfg.global_vars and self.original_config is cfg and self._part is None \
+        and self._name == f'{cfg.name}/{original_task.fullname}'
+
+
+CONTRACTS += [
+    Contract(
+        id='K8', target='taskchain.chain:TaskParameterConfig.__init__',
+        props={'C01': 'decisive', 'C02': 'supporting', 'C03': 'supporting', 'C09': 'decisive', 'C12': 'decisive'},
+        inputs={'self': Obj('taskchain.chain:TaskParameterConfig'), 'original_task': Abs(OrigTaskIface, 'original_task'),
+                'input_tasks': SymDict(Str, InTaskRec, 'input_tasks')},
+        callees={'taskchain.chain:TaskParameterConfig.get_name_for_persistence': ByContract(spec='k8_key_of')},
+        ensures={'post': 'k8_post'},
+        loops={0: Loop('k8_inv', vars={'parameter': ParamNameRec}, attrs={'self._data': Map(Str, Dyn)})},
+        l0=['A-dict'], searchable=False,
+    ),
+]
